@@ -2,11 +2,23 @@
 
 GENERATORS = {}
 
-NOT_APPLICABLE = {
-    "C16": "behaviour lives in encoding/json's reflection-driven codec and regexp.Compile; the repo side is a constant four-way tag switch, so a solver has nothing to range over without verifying a hand-written model of encoding/json instead of the code (DESIGN.md §5)",
-}
+NOT_APPLICABLE = {}
 
 PROPS = {
+    "C16": dict(
+        level="model_checking",
+        level_text="bounded model checking by symbolic execution: the repository's Rule.MarshalJSON / Rule.UnmarshalJSON / StatefulDefinition.MarshalJSON are executed from SSA together with the real encoding/json (encoder, decoder, scanner, string escaping and unescaping, struct-tag handling) over the executor's reflect model; a lexer built from the unmarshalled rules is compared with the original (symbol table, token stream and error on every input of up to L symbolic bytes), and single rules are round-tripped with symbolic name / pattern / state bytes and every kind of action",
+        level_note="trusted: the executor's reflect model (every sampled path is replayed natively with the real reflect and the real encoding/json), the reference regex matcher on symbolic input, z3; bounds: 14 catalogue + 40 (quick) / 400 (thorough) generated definitions x inputs <= 3 / 4 bytes; rule fields: texts of <= 2 (quick) / 3 (thorough) bytes, the first 1 / 2 of them any ASCII byte and the rest from 10 class representatives, or one two-byte UTF-8 character",
+        runs=[dict(pkg="lexer", files=["lexer/zz_verif_json.go", "lexer/zz_verif_stateful.go", "lexer/zz_verif_lexdefs.go", "lexer/zz_verif_lexgen.go", "lexer/zz_verif_conc.go"], harness="^VH_C16_",
+                   flags=["-exec-pkgs", "encoding/json,encoding,encoding/base64"], max_steps=20_000_000,
+                   reach={"VH_C16_PushPop": ["round-trip"], "VH_C16_IncludeNested": ["round-trip"], "VH_C16_Generated": ["round-trip"], "VH_C16_RuleFields": ["round-trip"]})],
+        bounds=dict(quick="14 catalogue definitions (every action kind, Include first/middle/nested, Return, elided rules with actions, back-references, multi-byte and non-ASCII patterns) + 40 generated definitions, each marshalled both as a definition and as a rule set, x all inputs of <= 3 arbitrary bytes; rule fields: symbolic texts of <= 2 bytes",
+                    thorough="400 generated definitions, inputs <= 4 bytes, rule-field texts <= 3 bytes"),
+        outside="definitions outside the catalogue and the generated family; patterns and names longer than the bound; non-ASCII text beyond one two-byte character in the symbolic rule fields (the catalogue has concrete non-ASCII patterns); invalid UTF-8 in names/patterns (encoding/json replaces it by U+FFFD; regexp.Compile rejects such patterns anyway)",
+        assumptions=["encoding/json, encoding, encoding/base64 are executed from SSA; reflect is modelled over go/types; sync.Pool/sync.Map/sync.WaitGroup by single-threaded models",
+                     "package regexp replaced by the reference matcher on symbolic input"],
+        explanation="JSON round trip of lexer definitions with the real encoding/json executed symbolically; differential lexing of original vs. round-tripped definition.",
+    ),
     "C12": dict(
         level="model_checking",
         level_text="bounded model checking by symbolic execution: base case + one inductive step per PeekingLexer operation from an arbitrary state satisfying the representation invariant; the solver discharges every assertion and every index/slice bound on all feasible paths of the real lexer/peek.go for streams up to the bound",
